@@ -25,6 +25,11 @@ pub fn hosted_input() -> V {
     V::List(vec![pair(sym("k"), V::Int(3)), pair(sym("f"), V::External(7)), pair(sym("g"), V::External(8))])
 }
 
+/// the same associations as a concatenation nested to the right (what a partially applied expression runs with)
+pub fn hosted_input_concatenated() -> V {
+    V::Concat(Box::new(pair(sym("k"), V::Int(3))), Box::new(V::Concat(Box::new(pair(sym("f"), V::External(7))), Box::new(pair(sym("g"), V::External(8))))))
+}
+
 pub fn hosts() -> Vec<(&'static str, HostState)> {
     let s = |names: &[&str], apply: &[(usize, i32)]| HostState {
         resolve_script: names.iter().enumerate().map(|(i, n)| (symbol_value(n), 1000 + i as i32)).collect(),
@@ -108,7 +113,7 @@ impl Check for C17Check {
     }
     fn rule(&self) -> String {
         "Phase exhaustive: every AST with at most k nodes (k=5 quick, 6 thorough) over identifiers a, b (unknown to the input), f, g (bound to External values in the input), k (bound to a number in the input), `1`, `$` and the constructs `~~`, `{ }`, `!!`, `<~`, `~>`, `?>`, `|>`, `&&`, `||`, `=`, space list, `+`, `;`, \
-         run with the input (:k = 3, :f = external 7, :g = external 8) under 4 scripted recording hosts (resolving none / some / all identifiers, answering external 7 only / both / none) on both data implementations; phase random: larger core-language ASTs with identifiers in every position, inputs of C01, spaced and tight layout. \
+         run with the input (:k = 3, :f = external 7, :g = external 8) (ASTs of up to 4 nodes also with the same associations as a concatenation nested to the right) under 4 scripted recording hosts (resolving none / some / all identifiers, answering external 7 only / both / none) on both data implementations; phase random: larger core-language ASTs with identifiers in every position, inputs of C01, spaced and tight layout. \
          Oracle: the host's call trace (resolve(symbol) and, on BasicGarnishData, apply(external, argument read back)) equals the reference evaluator's event trace in order and multiplicity — input lookup first, one resolve per evaluated unresolved occurrence, one apply per applied external — and the final value equals the reference value (declined => unit, accepted => exactly the host's value). \
          Non-trivial = judged program with >= 2 identifier occurrences, >= 2 reference host events under some host and at least one identifier answered from the input; distinct = distinct (AST, input)."
             .to_string()
@@ -131,6 +136,10 @@ impl Check for C17Check {
                 if let Some(ast) = HOSTED.unrank(*i, tier.pick(5, 6)) {
                     ctx.class("exhaustive");
                     self.judge(&ast, &hosted_input(), &[Layout::Spaced], ctx);
+                    if ast.size() <= 4 {
+                        ctx.class("exhaustive-with-concatenated-input");
+                        self.judge(&ast, &hosted_input_concatenated(), &[Layout::Spaced], ctx);
+                    }
                 }
             }
             (1, Input::Tape(t)) => {
